@@ -199,6 +199,24 @@ def b_dupunion(ch):
     return finish_deck(st, [(1, e), (2, ('^', 1))], imps)
 
 
+def b_nestedcompl(ch):
+    """the same cells referenced both as #n and inside #( ... #n ... ), at several nesting depths"""
+    st = St('c01 nested complements')
+    e1 = choose_tree(ch, 'e1', [1, 2], LITS3, free=False)
+    e2 = choose_tree(ch, 'e2', [1, 2], LITS3, free=False)
+    lits = [('^', 1), ('^', 2), 3, -3, 4, -4]
+    t = choose_tree(ch, 't', [2, 1, 3], lits, compl=True, free=False)
+    if ch.choose('t-rootcompl', [True, False]):
+        t = ('#', t)
+    order = ch.choose('order', ['direct-first', 'nested-first'])
+    guard = ('*', ('^', 1), ('^', 2))
+    e3 = ('*', guard, t) if order == 'direct-first' else ('*', t, guard)
+    imps = ch.choose('imps', [(1, 1, 1, 1), (1, 0, 1, 0), (0, 1, 0, 1)])
+    cells = [(1, e1), (2, ('*', e2, ('^', 1))), (3, e3),
+             (4, ('*', ('*', ('^', 1), ('^', 2)), ('^', 3)))]
+    return finish_deck(st, cells, imps)
+
+
 def b_forward(ch):
     """#n of a cell defined later in the deck; cell numbers not in card order"""
     st = St('c01 forward')
@@ -238,6 +256,7 @@ def scenarios(tier):
                 'sphere, cylinder, one-sheet cones (surface collections) and planes, k<=2; witnesses + lattice'),
             Scn('p2-dup-k3', b_p2(LITSD, [1, 2, 3]), None, None,
                 'one surface under several numbers (slivers that become patently empty after de-duplication)'),
+            Scn('nested-compl', b_nestedcompl, 3, 4, '#n and #( ... #n ... ) of the same cells'),
             Scn('forward-ref', b_forward, 3, 4, '#n of cells defined later; numbers not in card order'),
             Scn('dup-union', b_dupunion, None, None, 'unions with members that are empty only after de-duplication'),
             Scn('nonpure-union', b_nonpure, None, None, 'unions of intersections that contain unions (helper planes)'),
